@@ -182,11 +182,14 @@ pub struct RunReport {
     pub state_digest: u64,
 }
 
-fn error_struct_matches(v: &Variable, kind: i64, msg: &str) -> bool {
+/// The documented error value: exactly the fields `error_code: int` (the kind of the OS error)
+/// and `msg: string`. The TEXT of `msg` is not specified by docs/stdlib.md (only its type), so it
+/// is not compared: an implementation may prefix the kind's name or drop the errno suffix.
+fn error_struct_matches(v: &Variable, kind: i64, _msg: &str) -> bool {
     let Variable::Struct(m) = v else { return false };
     m.len() == 2
         && matches!(m.get("error_code"), Some(Variable::Int(k)) if *k == kind)
-        && matches!(m.get("msg"), Some(Variable::String(s)) if s.as_ref() == msg)
+        && matches!(m.get("msg"), Some(Variable::String(_)))
 }
 
 fn errno_name(e: i32) -> String {
